@@ -102,6 +102,15 @@ Proof.
   - apply H3 in H. apply andb_prop in H. apply has_attr_true, H.
 Qed.
 
+(* the constructor's check is what makes every later getattr succeed *)
+Lemma registry_init_guard_lemma (vals : list (name * T)) (hps : list (hpent T)) :
+  registry_init_ok vals hps = true <-> (forall h, In h hps -> exists v, getv vals (hp_name h) = Some v).
+Proof.
+  unfold registry_init_ok. rewrite forallb_forall. split; intros H h Hh.
+  - apply has_attr_true, H, Hh.
+  - destruct (H h Hh) as [v Hv]. unfold has_attr. rewrite Hv. reflexivity.
+Qed.
+
 (* the cached value of every configured hyperparameter is the individual's own current value *)
 Definition CacheOk (a : agent T) : Prop :=
   forall h c, In h (a_hps a) -> hp_cache h = Some c -> getv (a_vals a) (hp_name h) = Some c.
@@ -379,13 +388,14 @@ Qed.
 
 Lemma pop_step_inv (pop : list (agent T)) o : Forall Inv pop -> Forall Inv (pop_step O pop o).
 Proof.
-  intros H. destruct o as [draws|i k u|s d|i]; cbn.
+  intros H. destruct o as [draws|i k u|s d|i0|i]; cbn.
   - apply mutation_round_inv; exact H.
   - destruct (nth_error pop i) as [a|] eqn:E; [|exact H].
     apply upd_nth_Forall; [exact H|]. apply inv_rl_hp_mutation.
     rewrite Forall_forall in H. apply H. eapply nth_error_In; eauto.
   - destruct (nth_error pop s) as [a|] eqn:E; [|exact H].
     apply upd_nth_Forall; [exact H|]. rewrite Forall_forall in H. apply H. eapply nth_error_In; eauto.
+  - exact H.
   - destruct (nth_error pop i) as [a|] eqn:E; [|exact H].
     apply upd_nth_Forall; [exact H|]. apply inv_other_mutation.
     rewrite Forall_forall in H. apply H. eapply nth_error_In; eauto.
@@ -398,10 +408,11 @@ Qed.
 
 Lemma pop_step_length (pop : list (agent T)) o : length (pop_step O pop o) = length pop.
 Proof.
-  destruct o as [draws|i k u|s d|i]; cbn.
+  destruct o as [draws|i k u|s d|i0|i]; cbn.
   - apply mutation_round_length.
   - destruct (nth_error pop i); auto using upd_nth_length.
   - destruct (nth_error pop s); auto using upd_nth_length.
+  - reflexivity.
   - destruct (nth_error pop i); auto using upd_nth_length.
 Qed.
 
@@ -429,6 +440,39 @@ Proof. intros W F C. split; [apply wf_agent_sound, W|split; [apply fresh_cache_o
 Lemma history_inv (pop : list (agent T)) ops a :
   Forall Inv pop -> In a (pop_run O pop ops) -> Wf a /\ CacheOk a /\ Coherent a.
 Proof. intros H Hin. apply (pop_run_inv ops pop) in H. rewrite Forall_forall in H. apply H, Hin. Qed.
+
+(* the whole property in one statement: after ANY history on a population that started well formed,
+   a hyperparameter mutation of individual i changes exactly the sampled attribute to the mutation of
+   i's own current value, labels it, makes it the lr of every group of every optimizer registered with
+   that name, leaves every optimizer coherent with the attributes, and leaves every other individual
+   exactly as it was *)
+Lemma property_after_any_history_lemma (pop : list (agent T)) ops i a k u h v :
+  Forall Inv pop ->
+  nth_error (pop_run O pop ops) i = Some a ->
+  nth_error (a_hps a) k = Some h -> getv (a_vals a) (hp_name h) = Some v ->
+  let a' := rl_hp_mutation O a k u in
+  let nv := mutate_value O (hp_par h) u v in
+  getv (a_vals a') (hp_name h) = Some nv /\
+  (forall m, m <> hp_name h -> getv (a_vals a') m = getv (a_vals a) m) /\
+  a_mut a' = Some (hp_name h) /\
+  (forall o', In o' (a_opts a') -> o_cfg_lr o' = hp_name h ->
+      o_wlr o' = nv /\ Forall (fun g => g = nv) (o_groups o')) /\
+  Coherent a' /\
+  nth_error (pop_step O (pop_run O pop ops) (MutOne i k u)) i = Some a' /\
+  (forall j, j <> i ->
+      nth_error (pop_step O (pop_run O pop ops) (MutOne i k u)) j = nth_error (pop_run O pop ops) j).
+Proof.
+  intros HI Hi Hk Hv a' nv.
+  destruct (history_inv pop ops a HI (nth_error_In _ _ Hi)) as (W & C & Co).
+  destruct (hp_mutation_result a k u h v W C Hk Hv) as (R1 & R2 & R3).
+  destruct (lr_takes_effect_lemma a k u h v W C Hk Hv) as (L1 & _ & _).
+  split; [exact R1|]. split; [exact R2|]. split; [exact R3|]. split; [exact L1|]. split; [|split].
+  - apply (inv_rl_hp_mutation a k u). split; [exact W|split; assumption].
+  - cbn. rewrite Hi. rewrite upd_nth_nth, Nat.eqb_refl.
+    assert (i < length (pop_run O pop ops)) as Hlt by (apply nth_error_Some; congruence).
+    apply Nat.ltb_lt in Hlt. rewrite Hlt. reflexivity.
+  - intros j Hj. apply mutone_others, Hj.
+Qed.
 
 (* ---------------- the pinned behaviours violate the property ---------------- *)
 End Agent.
@@ -554,13 +598,14 @@ Qed.
 
 Lemma rinv_pop_step (pop : list (agent Q)) o : Forall RInv pop -> Forall RInv (pop_step QOps pop o).
 Proof.
-  intros H. destruct o as [draws|i k u|s d|i]; cbn.
+  intros H. destruct o as [draws|i k u|s d|i0|i]; cbn.
   - apply rinv_round; exact H.
   - destruct (nth_error pop i) as [a|] eqn:E; [|exact H].
     apply upd_nth_Forall; [exact H|]. apply rinv_rl_hp_mutation.
     rewrite Forall_forall in H. apply H. eapply nth_error_In; eauto.
   - destruct (nth_error pop s) as [a|] eqn:E; [|exact H].
     apply upd_nth_Forall; [exact H|]. rewrite Forall_forall in H. apply H. eapply nth_error_In; eauto.
+  - exact H.
   - destruct (nth_error pop i) as [a|] eqn:E; [|exact H].
     apply upd_nth_Forall; [exact H|].
     rewrite Forall_forall in H. destruct (H a (nth_error_In _ _ E)) as (I & R & G).
